@@ -911,6 +911,855 @@ Proof.
 Qed.
 
 (* ------------------------------------------------------------------ *)
+(* 8. what the written lines mean to MCNP: specification vocabulary (independent of MontePy's code) *)
+
+(* S5: a comment line has a C in columns 1-5, only blanks before it, and a blank or the end of the line after it *)
+Fixpoint cline_aux (k : nat) (s : string) : bool :=
+  match s with
+  | EmptyString => false
+  | String a r =>
+      if is_c a then (match r with EmptyString => true | String b _ => is_blank b end)
+      else if is_blank a then (match k with O => false | S k' => cline_aux k' r end)
+      else false
+  end.
+Definition mcnp_comment_line (s : string) : bool := cline_aux 4 s.
+
+(* S6: on any other line the data is the text before the first '$', the comment is the text after it *)
+Fixpoint data_part (l : string) : string :=
+  match l with
+  | EmptyString => ""
+  | String a r => if Ascii.eqb a "$"%char then "" else String a (data_part r)
+  end.
+Fixpoint after_dollar (l : string) : string :=
+  match l with
+  | EmptyString => ""
+  | String a r => if Ascii.eqb a "$"%char then r else after_dollar r
+  end.
+(* the text of a comment line: what follows the C *)
+Fixpoint after_c (l : string) : string :=
+  match l with
+  | EmptyString => ""
+  | String a r => if is_blank a then after_c r else r
+  end.
+
+Definition line_tokens (x : string) : list string :=
+  if mcnp_comment_line x then [] else words (data_part x).
+Definition line_comment (x : string) : string :=
+  if mcnp_comment_line x then after_c x else after_dollar x.
+(* the data tokens / the comment text of a sequence of physical lines *)
+Definition data_tokens (ls : list string) : list string := List.concat (map line_tokens ls).
+Definition comment_text (ls : list string) : string := String.concat "" (map line_comment ls).
+(* comment text is compared with its blanks removed: where a long comment was broken is not content *)
+Fixpoint noblank (s : string) : string :=
+  match s with
+  | EmptyString => ""
+  | String a r => if is_blank a then noblank r else String a (noblank r)
+  end.
+
+(* ---- basic facts ---- *)
+Lemma blanks_S : forall n, blanks (S n) = String " "%char (blanks n).
+Proof.
+  intros n. unfold blanks. change (repeat " " (S n)) with (" " :: repeat " " n).
+  rewrite concat_cons. reflexivity.
+Qed.
+
+Lemma blanks_add : forall a b, blanks (a + b) = blanks a ++ blanks b.
+Proof.
+  induction a as [|a IH]; intros b; [reflexivity|].
+  change (S a + b) with (S (a + b)). rewrite !blanks_S, IH. reflexivity.
+Qed.
+
+Lemma cline_aux_blanks : forall k t, cline_aux k (blanks (S k) ++ t) = false.
+Proof.
+  induction k as [|k IH]; intros t.
+  - rewrite blanks_S. reflexivity.
+  - rewrite blanks_S. cbn [append cline_aux]. change (is_c " "%char) with false.
+    change (is_blank " "%char) with true. cbn iota. apply IH.
+Qed.
+
+Lemma cline_cont_prefix : forall cont x,
+  5 <= cont -> String.prefix (blanks cont) x = true -> mcnp_comment_line x = false.
+Proof.
+  intros cont x Hc H. apply prefix_elim in H. destruct H as [t ->].
+  replace cont with (5 + (cont - 5)) by lia. rewrite blanks_add, app_assoc_s.
+  apply (cline_aux_blanks 4).
+Qed.
+
+Lemma cline_c_blank : forall b, mcnp_comment_line (comment_si ++ b) = true.
+Proof. intros b. reflexivity. Qed.
+
+(* the first k+2 characters decide *)
+Lemma cline_prefix_long : forall k x t, k + 2 <= slen x -> cline_aux k (x ++ t) = cline_aux k x.
+Proof.
+  induction k as [|k IH]; intros x t H.
+  - destruct x as [|a [|b x]]; unfold slen in H; simpl in H; try lia. reflexivity.
+  - destruct x as [|a x]; [unfold slen in H; simpl in H; lia|].
+    cbn [append cline_aux]. destruct (is_c a).
+    + destruct x as [|b x]; [unfold slen in H; simpl in H; lia | reflexivity].
+    + destruct (is_blank a); [|reflexivity]. apply IH. unfold slen in *. simpl in H. lia.
+Qed.
+
+Lemma has_char_app : forall c x y, has_char c (x ++ y) = has_char c x || has_char c y.
+Proof.
+  induction x as [|a x IH]; intros y; [reflexivity|]. cbn [append has_char]. rewrite IH. now rewrite orb_assoc.
+Qed.
+
+Lemma has_char_blanks : forall n, has_char dollar (blanks n) = false.
+Proof. induction n as [|n IH]; [reflexivity|]. rewrite blanks_S. cbn [has_char]. rewrite IH. reflexivity. Qed.
+
+Lemma has_char_concat_false : forall c bs, has_char c (String.concat "" bs) = false ->
+  Forall (fun b => has_char c b = false) bs.
+Proof.
+  induction bs as [|b bs IH]; intros H; [constructor|].
+  rewrite concat_cons, has_char_app in H. apply orb_false_iff in H. destruct H. constructor; auto.
+Qed.
+
+Lemma data_part_nodollar : forall x, has_char dollar x = false -> data_part x = x.
+Proof.
+  induction x as [|a x IH]; intros H; [reflexivity|]. cbn [has_char] in H.
+  apply orb_false_iff in H. destruct H as [Ha Hx]. cbn [data_part].
+  unfold dollar in Ha. rewrite Ha, (IH Hx). reflexivity.
+Qed.
+
+Lemma after_dollar_nodollar : forall x, has_char dollar x = false -> after_dollar x = "".
+Proof.
+  induction x as [|a x IH]; intros H; [reflexivity|]. cbn [has_char] in H.
+  apply orb_false_iff in H. destruct H as [Ha Hx]. cbn [after_dollar].
+  unfold dollar in Ha. rewrite Ha. auto.
+Qed.
+
+Lemma data_part_dollar : forall x u, has_char dollar x = false -> data_part (x ++ String dollar u) = x.
+Proof.
+  induction x as [|a x IH]; intros u H; [reflexivity|]. cbn [has_char] in H.
+  apply orb_false_iff in H. destruct H as [Ha Hx]. cbn [append data_part].
+  unfold dollar in Ha. rewrite Ha, (IH u Hx). reflexivity.
+Qed.
+
+Lemma after_dollar_dollar : forall x u, has_char dollar x = false -> after_dollar (x ++ String dollar u) = u.
+Proof.
+  induction x as [|a x IH]; intros u H; [reflexivity|]. cbn [has_char] in H.
+  apply orb_false_iff in H. destruct H as [Ha Hx]. cbn [append after_dollar].
+  unfold dollar in Ha. rewrite Ha. auto.
+Qed.
+
+(* line.split("$", 1) *)
+Lemma split_dollar_spec : forall line,
+  line = before_dollar line ++ from_dollar line /\ has_char dollar (before_dollar line) = false /\
+  (has_char dollar line = true -> exists rest, from_dollar line = String dollar rest).
+Proof.
+  induction line as [|a r IH]; [repeat split; discriminate|].
+  destruct IH as (I1 & I2 & I3). cbn [before_dollar from_dollar has_char].
+  destruct (Ascii.eqb a dollar) eqn:E.
+  - apply Ascii.eqb_eq in E. subst a. repeat split. intros _. eexists; reflexivity.
+  - cbn [append has_char]. rewrite E. repeat split; [congruence | exact I2 | exact I3].
+Qed.
+
+Lemma noblank_app : forall x y, noblank (x ++ y) = noblank x ++ noblank y.
+Proof.
+  induction x as [|a x IH]; intros y; [reflexivity|]. cbn [append noblank].
+  destruct (is_blank a); [apply IH | cbn [append]; now rewrite IH].
+Qed.
+
+Lemma noblank_sep : forall sep bs, noblank sep = "" ->
+  noblank (String.concat "" (map (fun b => sep ++ b) bs)) = noblank (String.concat "" bs).
+Proof.
+  intros sep bs Hs. induction bs as [|b bs IH]; [reflexivity|].
+  cbn [map]. rewrite !concat_cons, !noblank_app, Hs, IH. reflexivity.
+Qed.
+
+Lemma all_kind_true_blank : forall p, all_kind true p = true -> all_blank p = true.
+Proof.
+  induction p as [|a p IH]; intros H; [reflexivity|]. simpl in *.
+  apply andb_true_iff in H. destruct H as [Ha Hp].
+  destruct (is_blank a); [auto | discriminate].
+Qed.
+
+Lemma words_blank_only : forall p, all_kind true p = true -> words p = [].
+Proof. intros p H. rewrite <- (app_nil_r_s p). rewrite words_blank_app by exact H. reflexivity. Qed.
+
+(* ---- the shape of what wrap_chunks returns ---- *)
+Lemma split_ws_chunks_nonempty : forall text, Forall (fun c => c <> "") (split_ws text).
+Proof.
+  intros text. destruct (split_ws_spec text) as (b & Halt & _). revert b Halt.
+  induction (split_ws text) as [|c r IH]; intros b H; [constructor|].
+  destruct H as [[Hne _] Hr]. constructor; [exact Hne | eapply IH; exact Hr].
+Qed.
+
+Lemma split_ws_nonnil : forall text, text <> "" -> split_ws text <> [].
+Proof.
+  intros text Hne E. destruct (split_ws_spec text) as (b & _ & Hc). rewrite E in Hc. simpl in Hc. congruence.
+Qed.
+
+(* the first line is never empty-bodied *)
+Lemma one_line_body_nonempty : forall c r width body any rest,
+  c <> "" -> one_line (c :: r) width = (body, any, rest) -> body <> "".
+Proof.
+  intros c r width body any rest Hc H. apply one_line_spec in H.
+  destruct H as (taken & Ht & [(H1 & H2 & _ & H4) | (c' & r' & e & H1 & H2 & H3 & H4 & _ & _)]).
+  - destruct taken as [|t ts].
+    + simpl in H1. subst rest. simpl in H4. apply slen_pos in Hc. lia.
+    + injection H1 as <- _. subst body. rewrite concat_cons. destruct c; [congruence | discriminate].
+  - destruct taken as [|t ts].
+    + simpl in H1. injection H1 as <- <-. subst body. simpl.
+      assert (He : 0 < e).
+      { subst e. apply long_word_cut_pos. simpl. destruct (Nat.ltb width 1) eqn:E; [lia|]. apply Nat.ltb_ge in E. lia. }
+      destruct c; [congruence|]. destruct e; [lia | discriminate].
+    + injection H1 as <- _. subst body. rewrite concat_cons. destruct c; [congruence | discriminate].
+Qed.
+
+Lemma wrap_first_body : forall W ii si c r ls,
+  c <> "" -> wrap_chunks W ii si (c :: r) = Some ls ->
+  exists b0 bs rest, b0 <> "" /\ ls = (ii ++ b0) :: map (fun b => si ++ b) bs /\
+                String.concat "" (b0 :: bs) = String.concat "" (c :: r) /\
+                one_line (c :: r) (W - slen ii) = (b0, true, rest).
+Proof.
+  intros W ii si c r ls Hc H. unfold wrap_chunks in H.
+  assert (Hne : c :: r <> []) by discriminate.
+  rewrite wrap_loop_step in H by exact Hne.
+  destruct (one_line (c :: r) (W - slen ii)) as [[body any] rest] eqn:E.
+  pose proof (one_line_any _ _ _ _ _ Hne E) as ->.
+  pose proof (one_line_content _ _ _ _ _ E) as Hcont.
+  pose proof (one_line_body_nonempty _ _ _ _ _ _ Hc E) as Hb.
+  destruct (wrap_loop _ false rest W ii si) as [ls'|] eqn:R; [|discriminate].
+  injection H as <-. apply wrap_loop_content in R. destruct R as (bodies & Hls & Hcc).
+  exists body, bodies, rest. split; [exact Hb|]. split; [|split; [|reflexivity]].
+  - f_equal. destruct bodies as [|b0 bs]; subst ls'; reflexivity.
+  - rewrite concat_cons, Hcc. exact Hcont.
+Qed.
+
+(* data text whose runs all fit a continuation line: tokens kept, and a first line that is followed by another
+   one is longer than the continuation indent *)
+Lemma wrap_data_lines : forall W cont ii text ls,
+  5 <= cont -> cont < W -> (ii = "" \/ ii = blanks cont) ->
+  Forall (fun c => slen c <= W - cont) (split_ws text) ->
+  wrap_chunks W ii (blanks cont) (split_ws text) = Some ls ->
+  List.concat (map words ls) = words text /\
+  (exists bodies,
+     (match bodies with [] => ls = [] | b0 :: bs => ls = (ii ++ b0) :: map (fun b => blanks cont ++ b) bs end) /\
+     String.concat "" bodies = text) /\
+  (match ls with l0 :: _ :: _ => cont < slen l0 | _ => True end).
+Proof.
+  intros W cont ii text ls Hc HW Hii Hfit H.
+  assert (Hiik : all_kind true ii = true) by (destruct Hii as [-> | ->]; [reflexivity | apply all_kind_blanks]).
+  assert (Hiil : slen ii <= cont) by (destruct Hii as [-> | ->]; [unfold slen; simpl; lia | rewrite slen_blanks; lia]).
+  destruct (split_ws_spec text) as (b & Halt & Hcat).
+  split; [|split].
+  - replace (words text) with (words (String.concat "" (split_ws text))) by (rewrite Hcat; reflexivity).
+    rewrite (words_alt _ _ Halt). unfold wrap_chunks in H.
+    eapply wrap_loop_words; [exact Hiik | apply all_kind_blanks | exact Halt | | | exact H].
+    + eapply Forall_impl; [|exact Hfit]. simpl. intros c Hcl. lia.
+    + rewrite slen_blanks. exact Hfit.
+  - apply wrap_content in H. destruct H as (bodies & Hb & Hcc). exists bodies. split; [exact Hb | congruence].
+  - unfold wrap_chunks in H.
+    destruct (split_ws text) as [|c0 r0] eqn:Ec; [simpl in H; injection H as <-; exact I|].
+    rewrite <- Ec in *. assert (Hne : split_ws text <> []) by (rewrite Ec; discriminate).
+    rewrite wrap_loop_step in H by exact Hne.
+    destruct (one_line (split_ws text) (W - slen ii)) as [[body any] rest] eqn:E.
+    pose proof (one_line_any _ _ _ _ _ Hne E) as ->.
+    destruct (wrap_loop _ false rest W ii (blanks cont)) as [ls'|] eqn:R; [|discriminate].
+    injection H as <-. destruct ls' as [|l1 ls'']; [exact I|].
+    assert (Hrest : rest <> []).
+    { intros ->. rewrite wrap_loop_nil in R. discriminate. }
+    apply one_line_spec in E.
+    destruct E as (taken & Ht & [(H1 & H2 & _ & H4) | (c' & r' & e & H1 & H2 & _)]).
+    + destruct rest as [|c' r']; [congruence|]. destruct H4 as [H4a H4b].
+      assert (Hc' : slen c' <= W - cont).
+      { rewrite H1 in Hfit. apply Forall_app in Hfit. destruct Hfit as [_ Hf]. inversion Hf; assumption. }
+      subst body. rewrite slen_app, <- total_len_concat. lia.
+    + assert (Hc' : slen c' <= W - cont).
+      { rewrite H1 in Hfit. apply Forall_app in Hfit. destruct Hfit as [_ Hf]. inversion Hf; assumption. }
+      lia.
+Qed.
+
+(* a comment part "$..." wrapped with the continuation indent si': the first line carries the '$' *)
+Lemma wrap_comment_lines : forall W ci si' rest ls,
+  wrap_chunks W ci si' (split_ws (String dollar rest)) = Some ls ->
+  exists u0 bs, ls = (ci ++ String dollar u0) :: map (fun b => si' ++ b) bs /\
+                u0 ++ String.concat "" bs = rest.
+Proof.
+  intros W ci si' rest ls H.
+  pose proof (split_ws_chunks_nonempty (String dollar rest)) as Hall.
+  destruct (split_ws_spec (String dollar rest)) as (b & _ & Hcat).
+  destruct (split_ws (String dollar rest)) as [|c r] eqn:Ec; [simpl in Hcat; discriminate|].
+  inversion Hall as [|c' r' Hc _]; subst.
+  destruct (wrap_first_body _ _ _ _ _ _ Hc H) as (b0 & bs & rest0 & Hb0 & Hls & Hcc & _).
+  rewrite Hcat in Hcc. rewrite concat_cons in Hcc.
+  destruct b0 as [|a u0]; [congruence|]. simpl in Hcc. injection Hcc as -> Hrest.
+  exists u0, bs. split; [exact Hls | exact Hrest].
+Qed.
+
+(* ---- a comment line that is wrapped: its first physical line keeps the C ---- *)
+Lemma is_c_not_blank : forall c, is_c c = true -> is_blank c = false.
+Proof.
+  intros c H. unfold is_c in H. apply orb_true_iff in H.
+  destruct H as [H|H]; apply Ascii.eqb_eq in H; subst c; reflexivity.
+Qed.
+
+Lemma cline_decomp : forall k s, cline_aux k s = true ->
+  exists j c t, j <= k /\ s = blanks j ++ String c t /\ is_c c = true /\
+                (t = "" \/ exists t', t = String " "%char t').
+Proof.
+  induction k as [|k IH]; intros s H.
+  - destruct s as [|a r]; [discriminate|]. cbn [cline_aux] in H.
+    destruct (is_c a) eqn:Ec.
+    + exists 0, a, r. split; [lia|]. split; [reflexivity|]. split; [exact Ec|].
+      destruct r as [|b r']; [now left|]. right. apply is_blank_eq in H. subst b. eexists; reflexivity.
+    + destruct (is_blank a); discriminate.
+  - destruct s as [|a r]; [discriminate|]. cbn [cline_aux] in H.
+    destruct (is_c a) eqn:Ec.
+    + exists 0, a, r. split; [lia|]. split; [reflexivity|]. split; [exact Ec|].
+      destruct r as [|b r']; [now left|]. right. apply is_blank_eq in H. subst b. eexists; reflexivity.
+    + destruct (is_blank a) eqn:Eb; [|discriminate]. apply is_blank_eq in Eb. subst a.
+      apply IH in H. destruct H as (j & c & t & Hj & Hs & Hc & Ht).
+      exists (S j), c, t. split; [lia|]. split; [rewrite blanks_S, Hs; reflexivity|]. auto.
+Qed.
+
+Lemma cline_build : forall k j c more, j <= k -> is_c c = true ->
+  (more = "" \/ exists m', more = String " "%char m') ->
+  cline_aux k (blanks j ++ String c more) = true.
+Proof.
+  induction k as [|k IH]; intros j c more Hj Hc Hm.
+  - assert (j = 0) by lia. subst j. cbn [blanks repeat String.concat append cline_aux]. rewrite Hc.
+    destruct Hm as [-> | [m' ->]]; reflexivity.
+  - destruct j as [|j].
+    + cbn [blanks repeat String.concat append cline_aux]. rewrite Hc.
+      destruct Hm as [-> | [m' ->]]; reflexivity.
+    + rewrite blanks_S. cbn [append cline_aux]. change (is_c " "%char) with false.
+      change (is_blank " "%char) with true. cbn iota. apply IH; [lia | exact Hc | exact Hm].
+Qed.
+
+Lemma string_app_inv_head : forall a x y : string, a ++ x = a ++ y -> x = y.
+Proof. induction a as [|c a IH]; intros x y H; [exact H|]. simpl in H. injection H as H. auto. Qed.
+
+Lemma split_ws_aux_same : forall u cur b v,
+  cur <> "" -> all_kind b u = true -> split_ws_aux (u ++ v) cur b = split_ws_aux v (cur ++ u) b.
+Proof.
+  induction u as [|a u IH]; intros cur b v Hne Hk.
+  - now rewrite app_nil_r_s.
+  - simpl in Hk. apply andb_true_iff in Hk. destruct Hk as [Ha Hu].
+    cbn [append split_ws_aux].
+    destruct (String.eqb cur "") eqn:E; [apply String.eqb_eq in E; congruence|].
+    rewrite Ha. rewrite IH; [| destruct cur; [congruence | discriminate] | exact Hu].
+    rewrite app_assoc_s. reflexivity.
+Qed.
+
+Lemma split_ws_c : forall c t, is_c c = true -> (t = "" \/ exists t', t = String " "%char t') ->
+  split_ws (String c t) = String c "" :: split_ws t.
+Proof.
+  intros c t Hc Ht. pose proof (is_c_not_blank c Hc) as Hb.
+  unfold split_ws. cbn [split_ws_aux String.eqb]. rewrite Hb.
+  destruct Ht as [-> | [t' ->]].
+  - reflexivity.
+  - cbn [split_ws_aux String.eqb]. reflexivity.
+Qed.
+
+Lemma split_ws_blanks_c : forall j c t, is_c c = true -> (t = "" \/ exists t', t = String " "%char t') ->
+  split_ws (blanks (S j) ++ String c t) = blanks (S j) :: String c "" :: split_ws t.
+Proof.
+  intros j c t Hc Ht. pose proof (is_c_not_blank c Hc) as Hb.
+  rewrite blanks_S. unfold split_ws at 1. cbn [append split_ws_aux String.eqb].
+  change (is_blank " "%char) with true.
+  rewrite split_ws_aux_same; [| discriminate | apply all_kind_blanks].
+  cbn [split_ws_aux]. cbn [append String.eqb]. rewrite Hb. cbn [Bool.eqb].
+  f_equal. rewrite <- (split_ws_c c t Hc Ht). unfold split_ws. cbn [split_ws_aux String.eqb]. rewrite Hb. reflexivity.
+Qed.
+
+Lemma fill_app_fits : forall pre post cur cur_len width any,
+  cur_len + total_len pre <= width ->
+  fill (List.app pre post) cur cur_len width any =
+  fill post (cur ++ String.concat "" pre) (cur_len + total_len pre) width (if nonnil pre then true else any).
+Proof.
+  induction pre as [|c r IH]; intros post cur cur_len width any H.
+  - simpl. now rewrite app_nil_r_s, Nat.add_0_r.
+  - rewrite concat_cons. cbn [List.app fill total_len nonnil]. cbn [total_len] in H.
+    destruct (Nat.leb (cur_len + slen c) width) eqn:E; [|apply Nat.leb_gt in E; lia].
+    rewrite IH by lia. rewrite app_assoc_s, Nat.add_assoc.
+    destruct (nonnil r); reflexivity.
+Qed.
+
+Lemma one_line_prefix : forall pre post width body any rest,
+  total_len pre <= width -> one_line (List.app pre post) width = (body, any, rest) ->
+  exists more, body = String.concat "" pre ++ more.
+Proof.
+  intros pre post width body any rest Hfit H. unfold one_line in H.
+  rewrite fill_app_fits in H by (simpl; exact Hfit). simpl in H.
+  destruct (fill post (String.concat "" pre) (total_len pre) width (if nonnil pre then true else false))
+    as [[[cur cur_len] any0] rest0] eqn:F.
+  apply fill_spec in F. destruct F as (taken & _ & H2 & _).
+  destruct rest0 as [|c r].
+  - injection H as <- _ _. exists (String.concat "" taken). exact H2.
+  - destruct (Nat.ltb width (slen c)).
+    + injection H as <- _ _. eexists. rewrite H2, app_assoc_s. reflexivity.
+    + injection H as <- _ _. exists (String.concat "" taken). exact H2.
+Qed.
+
+Lemma wrap_comment_line_lines : forall W si line ls,
+  5 <= W -> mcnp_comment_line line = true ->
+  wrap_chunks W "" si (split_ws line) = Some ls ->
+  exists b0 bs, ls = b0 :: map (fun b => si ++ b) bs /\ String.concat "" (b0 :: bs) = line /\
+                mcnp_comment_line b0 = true.
+Proof.
+  intros W si line ls HW Hcl H.
+  apply cline_decomp in Hcl. destruct Hcl as (j & c & t & Hj & Hline & Hc & Ht).
+  destruct (split_ws_spec line) as (b & _ & Hcat).
+  pose proof (split_ws_chunks_nonempty line) as Hall.
+  (* the chunks up to the C fit the first line *)
+  assert (Hpre : exists pre post, split_ws line = List.app pre post /\
+                                  String.concat "" pre = blanks j ++ String c "" /\ total_len pre <= 5).
+  { subst line. destruct j as [|j].
+    - exists [String c ""], (split_ws t). split; [apply split_ws_c; assumption|]. split; [reflexivity|].
+      unfold slen; simpl; lia.
+    - exists [blanks (S j); String c ""], (split_ws t). split; [apply split_ws_blanks_c; assumption|].
+      split; [rewrite !concat_cons; reflexivity|]. cbn [total_len]. rewrite slen_blanks. unfold slen; simpl; lia. }
+  destruct Hpre as (pre & post & Hsplit & Hpc & Hpl).
+  destruct (split_ws line) as [|c0 r0] eqn:Ec.
+  { destruct pre; [|discriminate]. simpl in Hpc. destruct j; [discriminate|]. rewrite blanks_S in Hpc. discriminate. }
+  inversion Hall as [|c0' r0' Hc0 _]; subst c0' r0'.
+  destruct (wrap_first_body _ _ _ _ _ _ Hc0 H) as (b0 & bs & rest & Hb0 & Hls & Hcc & Hone).
+  rewrite Hcat in Hcc. cbn [slen String.length] in Hone. rewrite Nat.sub_0_r in Hone.
+  rewrite Hsplit in Hone. apply one_line_prefix in Hone; [|lia].
+  destruct Hone as [more Hmore]. rewrite Hpc in Hmore.
+  exists b0, bs. split; [exact Hls|]. split; [exact Hcc|].
+  (* b0 = blanks j ++ c ++ more, and more is a prefix of t *)
+  assert (Hb : b0 = blanks j ++ String c more) by (rewrite Hmore, app_assoc_s; reflexivity).
+  rewrite concat_cons, Hb, Hline, app_assoc_s in Hcc. apply string_app_inv_head in Hcc.
+  cbn [append] in Hcc. injection Hcc as Hcc.
+  rewrite Hb. unfold mcnp_comment_line. apply cline_build; [exact Hj | exact Hc|].
+  destruct more as [|m more']; [now left|]. right.
+  destruct Ht as [-> | [t' ->]]; [discriminate|]. cbn [append] in Hcc. injection Hcc as -> _. eexists; reflexivity.
+Qed.
+
+(* ---- the shape of what _wrap_line returns for a plain line ---- *)
+(* a physical line that is data only *)
+Definition data_line (x : string) : Prop := has_char dollar x = false /\ mcnp_comment_line x = false.
+
+Lemma data_line_tokens : forall x, data_line x -> line_tokens x = words x /\ line_comment x = "".
+Proof.
+  intros x [H1 H2]. unfold line_tokens, line_comment. rewrite H2.
+  rewrite data_part_nodollar, after_dollar_nodollar by exact H1. auto.
+Qed.
+
+Lemma cline_dollar_irrelevant : forall k p u v,
+  cline_aux k (p ++ String dollar u) = cline_aux k (p ++ String dollar v).
+Proof.
+  induction k as [|k IH]; intros p u v.
+  - destruct p as [|a [|b p]]; reflexivity.
+  - destruct p as [|a p]; [reflexivity|]. cbn [append cline_aux].
+    destruct (is_c a); [destruct p; reflexivity|]. destruct (is_blank a); [apply IH | reflexivity].
+Qed.
+
+Lemma cline_pyspace_dollar : forall p k u, all_pyspace p = true -> cline_aux k (p ++ String dollar u) = false.
+Proof.
+  induction p as [|a p IH]; intros k u H; [destruct k; reflexivity|].
+  simpl in H. apply andb_true_iff in H. destruct H as [Ha Hp].
+  assert (Hc : is_c a = false).
+  { unfold is_c. destruct (Ascii.eqb a "c"%char) eqn:E1; [apply Ascii.eqb_eq in E1; subst a; discriminate|].
+    destruct (Ascii.eqb a "C"%char) eqn:E2; [apply Ascii.eqb_eq in E2; subst a; discriminate | reflexivity]. }
+  destruct k as [|k]; cbn [append cline_aux]; rewrite Hc; destruct (is_blank a); try reflexivity.
+  apply IH; exact Hp.
+Qed.
+
+Lemma before_dollar_nodollar : forall x, has_char dollar x = false -> before_dollar x = x.
+Proof.
+  induction x as [|a x IH]; intros H; [reflexivity|]. cbn [has_char] in H.
+  apply orb_false_iff in H. destruct H as [Ha Hx]. cbn [before_dollar]. rewrite Ha, (IH Hx). reflexivity.
+Qed.
+
+Lemma concat_map_app : forall {A B} (f : A -> list B) xs ys,
+  List.concat (map f (List.app xs ys)) = List.app (List.concat (map f xs)) (List.concat (map f ys)).
+Proof. intros A B f xs ys. rewrite map_app, Coq.Lists.List.concat_app. reflexivity. Qed.
+
+(* the lines of wrapped data text: no '$'; a first line that is followed by another one is no comment line *)
+Lemma wrap_data_lines_ok : forall W cont ii text tail ls,
+  5 <= cont -> cont < W -> (ii = "" \/ ii = blanks cont) ->
+  has_char dollar text = false ->
+  Forall (fun c => slen c <= W - cont) (split_ws text) ->
+  mcnp_comment_line (ii ++ text ++ tail) = false ->
+  wrap_chunks W ii (blanks cont) (split_ws text) = Some ls ->
+  List.concat (map words ls) = words text /\
+  Forall (fun x => has_char dollar x = false) ls /\
+  match ls with
+  | [] => True
+  | l0 :: rs => String.prefix ii l0 = true /\
+                Forall (fun x => String.prefix (blanks cont) x = true) rs /\
+                ((rs = [] /\ l0 = ii ++ text) \/ (rs <> [] /\ mcnp_comment_line l0 = false))
+  end.
+Proof.
+  intros W cont ii text tail ls Hc HW Hii Hnd Hfit Hcl H.
+  pose proof (wrap_indent _ _ _ _ _ H) as Hind.
+  destruct (wrap_data_lines _ _ _ _ _ Hc HW Hii Hfit H) as (Hw & (bodies & Hb & Hcat) & Hlen).
+  assert (Hiid : has_char dollar ii = false) by (destruct Hii as [-> | ->]; [reflexivity | apply has_char_blanks]).
+  split; [exact Hw|].
+  rewrite <- Hcat in Hnd. apply has_char_concat_false in Hnd.
+  destruct bodies as [|b0 bs]; [subst ls; split; [constructor | exact I]|].
+  subst ls. inversion Hnd as [|x xs Hb0 Hbs]; subst x xs. split.
+  - constructor; [rewrite has_char_app, Hiid, Hb0; reflexivity|].
+    rewrite Forall_forall in *. intros x Hx. apply in_map_iff in Hx. destruct Hx as (bb & <- & Hbb).
+    rewrite has_char_app, has_char_blanks. simpl. auto.
+  - destruct Hind as [Hi1 Hi2]. split; [exact Hi1|]. split; [exact Hi2|].
+    destruct bs as [|b1 bs'].
+    + left. split; [reflexivity|]. rewrite concat_cons in Hcat. simpl in Hcat. rewrite app_nil_r_s in Hcat. now subst b0.
+    + right. split; [discriminate|]. cbn [map] in Hlen.
+      assert (E : ii ++ text ++ tail = (ii ++ b0) ++ (String.concat "" (b1 :: bs') ++ tail)).
+      { rewrite <- Hcat, concat_cons, !app_assoc_s. reflexivity. }
+      rewrite E in Hcl. unfold mcnp_comment_line in *. rewrite cline_prefix_long in Hcl; [exact Hcl | lia].
+Qed.
+
+Definition dollar_shape (cont : nat) (pdata rest : string) (out : list string) : Prop :=
+  exists dl p u0 bs,
+    out = List.app dl ((p ++ String dollar u0) :: map (fun b => dollar_si (blanks cont) ++ b) bs) /\
+    Forall data_line dl /\ has_char dollar p = false /\
+    mcnp_comment_line (p ++ String dollar u0) = false /\
+    List.app (List.concat (map words dl)) (words p) = words pdata /\
+    u0 ++ String.concat "" bs = rest.
+
+Lemma wrap_line_shape : forall W cont (first : bool) line out,
+  5 <= cont -> cont + 2 < W -> 11 < W ->
+  is_comment line = mcnp_comment_line ((if first then "" else blanks cont) ++ line) ->
+  (is_comment line = false -> Forall (fun c => slen c <= W - cont) (split_ws (before_dollar line))) ->
+  wrap_line W (if first then "" else blanks cont) (blanks cont) (plain_line line) = WOk out ->
+  let ii := if first then "" else blanks cont in
+  out = [ii ++ line] \/
+  (line = "" /\ out = []) \/
+  (has_char dollar line = false /\ mcnp_comment_line (ii ++ line) = false /\
+   Forall data_line out /\ List.concat (map words out) = words line) \/
+  (ii = "" /\ mcnp_comment_line line = true /\
+   exists b0 bs, out = b0 :: map (fun b => comment_si ++ b) bs /\ String.concat "" (b0 :: bs) = line /\
+                 mcnp_comment_line b0 = true) \/
+  (mcnp_comment_line (ii ++ line) = false /\
+   exists rest, line = before_dollar line ++ String dollar rest /\
+                dollar_shape cont (ii ++ before_dollar line) rest out).
+Proof.
+  intros W cont first line out Hc HW HW12 Hcls Hfit H ii.
+  assert (HcW : cont < W) by lia.
+  assert (Hii : ii = "" \/ ii = blanks cont) by (unfold ii; destruct first; auto).
+  fold ii in H, Hcls.
+  assert (Hiib : all_kind true ii = true) by (destruct Hii as [-> | ->]; [reflexivity | apply all_kind_blanks]).
+  unfold wrap_line in H. cbn [l_text l_chunks l_data_chunks l_comment_chunks plain_line] in H.
+  destruct (split_ws_spec line) as (b & _ & Hcat).
+  destruct (Nat.leb (slen ii + slen line) W) eqn:Efit.
+  { (* the line fits *)
+    apply Nat.leb_le in Efit. destruct line as [|a r] eqn:El.
+    - right. left. split; [reflexivity|]. cbn in H. apply WOk_inj in H. auto.
+    - left. rewrite <- El in *.
+      rewrite wrap_identity in H.
+      + apply WOk_inj in H. rewrite Hcat in H. auto.
+      + apply split_ws_nonnil. rewrite El. discriminate.
+      + apply split_ws_chunks_nonempty.
+      + rewrite Hcat. exact Efit. }
+  destruct (is_comment line) eqn:Ecom.
+  { (* a comment line *)
+    right. right. right. left.
+    assert (Hi : ii = "").
+    { destruct Hii as [Hi|Hi]; [exact Hi|]. exfalso. symmetry in Hcls. rewrite Hi in Hcls.
+      rewrite (cline_cont_prefix cont) in Hcls; [discriminate | exact Hc | apply prefix_app]. }
+    rewrite Hi in *. cbn [append] in Hcls. split; [reflexivity|]. split; [auto|].
+    destruct (wrap_chunks W "" comment_si (split_ws line)) as [ls|] eqn:R; [|discriminate H].
+    apply WOk_inj in H. subst out.
+    apply (wrap_comment_line_lines W comment_si line ls); [lia | auto | exact R]. }
+  specialize (Hfit eq_refl).
+  assert (Hncl : mcnp_comment_line (ii ++ line) = false) by (rewrite <- Hcls; reflexivity).
+  destruct (has_char dollar line) eqn:Ed; cbn [negb] in H.
+  2:{ (* no '$' *)
+    right. right. left. split; [reflexivity|]. split; [exact Hncl|].
+    rewrite before_dollar_nodollar in Hfit by exact Ed.
+    destruct (wrap_chunks W ii (blanks cont) (split_ws line)) as [ls|] eqn:R; [|discriminate H].
+    apply WOk_inj in H. subst out.
+    assert (Hcl' : mcnp_comment_line (ii ++ line ++ "") = false) by (rewrite app_nil_r_s; exact Hncl).
+    destruct (wrap_data_lines_ok _ _ _ _ _ _ Hc HcW Hii Ed Hfit Hcl' R) as (Hw & Hnd & Hsh).
+    split; [|exact Hw].
+    destruct ls as [|l0 rs]; [constructor|].
+    destruct Hsh as (_ & Hrs & Hl0). inversion Hnd as [|x xs Hd0 Hdr]; subst x xs.
+    constructor.
+    - split; [exact Hd0|]. destruct Hl0 as [[_ ->] | [_ Hl0]]; [exact Hncl | exact Hl0].
+    - rewrite Forall_forall in *. intros x Hx. split; [auto|]. eapply cline_cont_prefix; [exact Hc | auto]. }
+  (* a '$' comment *)
+  right. right. right. right. split; [exact Hncl|].
+  destruct (split_dollar_spec line) as (Hsplit & Hbd & Hfd). destruct (Hfd Ed) as [rest Hrest].
+  exists rest. split; [rewrite <- Hrest; exact Hsplit|].
+  remember (before_dollar line) as data eqn:Hdata. rewrite Hrest in *.
+  assert (Hline : ii ++ line = ii ++ data ++ String dollar rest) by (rewrite Hsplit at 1; reflexivity).
+  assert (Hsi_d : has_char dollar (blanks cont) = false) by apply has_char_blanks.
+  assert (Hiid : has_char dollar ii = false) by (destruct Hii as [-> | ->]; [reflexivity | apply has_char_blanks]).
+  destruct (all_pyspace data) eqn:Eb; cbn [negb] in H.
+  { (* only blanks before the '$' *)
+    destruct (wrap_chunks W (ii ++ data) (dollar_si (blanks cont)) (split_ws (String dollar rest))) as [ls|] eqn:R;
+      [|discriminate H].
+    apply WOk_inj in H. subst out. apply wrap_comment_lines in R. destruct R as (u0 & bs & -> & Hu).
+    exists [], (ii ++ data), u0, bs. split; [reflexivity|]. split; [constructor|].
+    split; [rewrite has_char_app, Hiid, Hbd; reflexivity|]. split; [|split; [reflexivity | exact Hu]].
+    unfold mcnp_comment_line in *. rewrite (cline_dollar_irrelevant 4 (ii ++ data) u0 rest).
+    rewrite app_assoc_s, <- Hline. exact Hncl. }
+  destruct (wrap_chunks W ii (blanks cont) (split_ws data)) as [ret|] eqn:R; [|discriminate H].
+  assert (Hcl' : mcnp_comment_line (ii ++ data ++ String dollar rest) = false) by (rewrite <- Hline; exact Hncl).
+  destruct (wrap_data_lines_ok _ _ _ _ _ _ Hc HcW Hii Hbd Hfit Hcl' R) as (Hw & Hnd & Hsh).
+  destruct ret as [|r0 rs]; [discriminate H|].
+  destruct Hsh as (Hp0 & Hrs & Hl0).
+  set (ret := r0 :: rs) in *. set (lst := List.last ret "") in *.
+  assert (Hret : ret = List.app (removelast ret) [lst]) by (apply app_removelast_last; discriminate).
+  assert (Hlst_d : has_char dollar lst = false)
+    by (apply (Forall_last (fun x => has_char dollar x = false) ret ""); [discriminate | exact Hnd]).
+  (* all lines but the last are data lines; the last is [lst] *)
+  assert (Hdl : Forall data_line (removelast ret)).
+  { destruct Hl0 as [[-> _] | [Hne Hl0]]; [constructor|].
+    apply Forall_removelast. constructor.
+    - inversion Hnd; subst. split; assumption.
+    - inversion Hnd as [|x xs _ Hdr]; subst x xs. rewrite Forall_forall in *. intros x Hx.
+      split; [auto|]. eapply cline_cont_prefix; [exact Hc | auto]. }
+  assert (Hwords : List.app (List.concat (map words (removelast ret))) (words lst) = words (ii ++ data)).
+  { rewrite (words_blank_app ii data Hiib), <- Hw.
+    transitivity (List.concat (map words (List.app (removelast ret) [lst]))).
+    - rewrite concat_map_app. simpl. rewrite app_nil_r. reflexivity.
+    - rewrite <- Hret. reflexivity. }
+  (* the last data line followed by '$': not a comment line *)
+  assert (Hlst_cl : forall u, mcnp_comment_line (lst ++ String dollar u) = false).
+  { intros u. destruct Hl0 as [[Hrs0 Hr0] | [Hne _]].
+    - unfold lst, ret. rewrite Hrs0. cbn [List.last]. rewrite Hr0.
+      unfold mcnp_comment_line in *. rewrite (cline_dollar_irrelevant 4 (ii ++ data) u rest).
+      rewrite app_assoc_s. exact Hcl'.
+    - eapply cline_cont_prefix; [exact Hc|]. apply prefix_app_r.
+      unfold lst, ret. destruct rs as [|r1 rs']; [congruence|].
+      change (List.last (r0 :: r1 :: rs') "") with (List.last (r1 :: rs') "").
+      apply (Forall_last (fun x => String.prefix (blanks cont) x = true) (r1 :: rs') ""); [discriminate | exact Hrs]. }
+  destruct (Nat.leb (slen lst + slen (String dollar rest)) W).
+  { (* the comment fits on the last data line *)
+    apply WOk_inj in H. subst out.
+    exists (removelast ret), lst, rest, []. split; [reflexivity|]. split; [exact Hdl|]. split; [exact Hlst_d|].
+    split; [apply Hlst_cl|]. split; [exact Hwords | apply app_nil_r_s]. }
+  destruct (Nat.ltb (slen lst) (Nat.div W 2)) eqn:Eh.
+  { (* the comment starts on the (short) last data line *)
+    destruct (wrap_chunks W lst (dollar_si (blanks cont)) (split_ws (String dollar rest))) as [ls|] eqn:R2;
+      [|discriminate H].
+    apply WOk_inj in H. subst out. apply wrap_comment_lines in R2. destruct R2 as (u0 & bs & -> & Hu).
+    exists (removelast ret), lst, u0, bs. split; [reflexivity|]. split; [exact Hdl|]. split; [exact Hlst_d|].
+    split; [apply Hlst_cl|]. split; [exact Hwords | exact Hu]. }
+  (* the comment starts on a continuation line of its own *)
+  apply Nat.ltb_ge in Eh.
+  destruct (wrap_chunks W (blanks cont) (dollar_si (blanks cont)) (split_ws (String dollar rest))) as [ls|] eqn:R2;
+    [|discriminate H].
+  apply WOk_inj in H. subst out. apply wrap_comment_lines in R2. destruct R2 as (u0 & bs & -> & Hu).
+  exists ret, (blanks cont), u0, bs. split; [reflexivity|].
+  assert (H6 : 6 <= slen lst).
+  { assert (6 <= Nat.div W 2) by (apply Nat.div_le_lower_bound; lia). lia. }
+  split; [|split; [exact Hsi_d|]].
+  - (* every data line, the last included, is a data line: the last one has 6 columns or more *)
+    rewrite Hret. apply Forall_app. split; [exact Hdl|]. constructor; [|constructor]. split; [exact Hlst_d|].
+    pose proof (Hlst_cl rest) as Hx. unfold mcnp_comment_line in *.
+    rewrite cline_prefix_long in Hx; [exact Hx | lia].
+  - split; [eapply cline_cont_prefix; [exact Hc | apply prefix_app]|]. split; [|exact Hu].
+    rewrite (words_blank_only (blanks cont)) by apply all_kind_blanks. rewrite app_nil_r.
+    rewrite (words_blank_app ii data Hiib). exact Hw.
+Qed.
+
+(* ---- wrapping never turns comment text into data or data into comment ---- *)
+Lemma dollar_cont_line : forall cont b, 5 <= cont ->
+  line_tokens (dollar_si (blanks cont) ++ b) = [] /\
+  line_comment (dollar_si (blanks cont) ++ b) = " " ++ b.
+Proof.
+  intros cont b Hc. unfold dollar_si.
+  assert (E : (blanks cont ++ "$ ") ++ b = blanks cont ++ String dollar (" " ++ b))
+    by (rewrite app_assoc_s; reflexivity).
+  rewrite E. unfold line_tokens, line_comment.
+  rewrite (cline_cont_prefix cont) by (try exact Hc; apply prefix_app).
+  rewrite data_part_dollar, after_dollar_dollar by apply has_char_blanks.
+  split; [apply words_blank_only, all_kind_blanks | reflexivity].
+Qed.
+
+Lemma data_lines_tokens : forall dl, Forall data_line dl ->
+  List.concat (map line_tokens dl) = List.concat (map words dl) /\
+  String.concat "" (map line_comment dl) = "".
+Proof.
+  induction 1 as [|x dl Hx _ [IH1 IH2]]; [split; reflexivity|].
+  destruct (data_line_tokens x Hx) as [E1 E2]. cbn [map List.concat]. rewrite concat_cons, E1, E2, IH1, IH2.
+  split; reflexivity.
+Qed.
+
+Lemma dollar_shape_meaning : forall cont pdata rest out,
+  5 <= cont -> dollar_shape cont pdata rest out ->
+  data_tokens out = words pdata /\ noblank (comment_text out) = noblank rest.
+Proof.
+  intros cont pdata rest out Hc (dl & p & u0 & bs & -> & Hdl & Hp & Hcl & Hw & Hu).
+  destruct (data_lines_tokens dl Hdl) as [T1 T2].
+  assert (Tb : List.concat (map line_tokens (map (fun b => dollar_si (blanks cont) ++ b) bs)) = [] /\
+               String.concat "" (map line_comment (map (fun b => dollar_si (blanks cont) ++ b) bs)) =
+               String.concat "" (map (fun b => " " ++ b) bs)).
+  { induction bs as [|b bs IH]; [split; reflexivity|].
+    assert (IHx : u0 ++ String.concat "" bs = u0 ++ String.concat "" bs) by reflexivity.
+    destruct (dollar_cont_line cont b Hc) as [E1 E2]. cbn [map List.concat].
+    rewrite !concat_cons, E1, E2.
+    assert (IH' : List.concat (map line_tokens (map (fun b0 => dollar_si (blanks cont) ++ b0) bs)) = [] /\
+                  String.concat "" (map line_comment (map (fun b0 => dollar_si (blanks cont) ++ b0) bs)) =
+                  String.concat "" (map (fun b0 => " " ++ b0) bs)).
+    { clear - Hc. induction bs as [|b' bs IH]; [split; reflexivity|].
+      destruct (dollar_cont_line cont b' Hc) as [E1 E2]. destruct IH as [I1 I2]. cbn [map List.concat].
+      rewrite !concat_cons, E1, E2, I1, I2. split; reflexivity. }
+    destruct IH' as [I1 I2]. rewrite I1, I2. split; reflexivity. }
+  destruct Tb as [Tb1 Tb2].
+  unfold data_tokens, comment_text. rewrite !map_app, Coq.Lists.List.concat_app, concat_app.
+  cbn [map List.concat]. rewrite concat_cons, T1, T2, Tb1, Tb2.
+  unfold line_tokens at 1, line_comment at 1. rewrite Hcl.
+  rewrite data_part_dollar, after_dollar_dollar by exact Hp. split.
+  - rewrite app_nil_r. exact Hw.
+  - change ("" ++ u0 ++ String.concat "" (map (fun b => " " ++ b) bs))
+      with (u0 ++ String.concat "" (map (fun b => " " ++ b) bs)).
+    rewrite noblank_app, (noblank_sep " " bs eq_refl), <- noblank_app, Hu. reflexivity.
+Qed.
+
+Lemma cline_after_c_app : forall k x y, cline_aux k x = true -> after_c (x ++ y) = after_c x ++ y.
+Proof.
+  induction k as [|k IH]; intros x y H; (destruct x as [|a r]; [discriminate|]); cbn [cline_aux] in H;
+    cbn [append after_c]; destruct (is_c a) eqn:Ec.
+  - rewrite (is_c_not_blank a Ec). reflexivity.
+  - destruct (is_blank a); discriminate.
+  - rewrite (is_c_not_blank a Ec). reflexivity.
+  - destruct (is_blank a); [apply IH; exact H | discriminate].
+Qed.
+
+Theorem wrap_line_meaning : forall W cont (first : bool) line out,
+  5 <= cont -> cont + 2 < W -> 11 < W ->
+  is_comment line = mcnp_comment_line ((if first then "" else blanks cont) ++ line) ->
+  (is_comment line = false -> Forall (fun c => slen c <= W - cont) (split_ws (before_dollar line))) ->
+  wrap_line W (if first then "" else blanks cont) (blanks cont) (plain_line line) = WOk out ->
+  data_tokens out = data_tokens [(if first then "" else blanks cont) ++ line] /\
+  noblank (comment_text out) = noblank (comment_text [(if first then "" else blanks cont) ++ line]).
+Proof.
+  intros W cont first line out Hc HW HW12 Hcls Hfit H.
+  pose proof (wrap_line_shape W cont first line out Hc HW HW12 Hcls Hfit H) as S. cbn zeta in S.
+  set (ii := if first then "" else blanks cont) in *.
+  assert (Hii : ii = "" \/ ii = blanks cont) by (unfold ii; destruct first; auto).
+  assert (Hiib : all_kind true ii = true) by (destruct Hii as [-> | ->]; [reflexivity | apply all_kind_blanks]).
+  assert (Hiid : has_char dollar ii = false) by (destruct Hii as [-> | ->]; [reflexivity | apply has_char_blanks]).
+  destruct S as [-> | [[-> ->] | [(Hd & Hncl & Hdl & Hw) | [(Hi & Hcl & b0 & bs & -> & Hcat & Hb0) | (Hncl & rest & Hline & Hsh)]]]].
+  - split; reflexivity.
+  - (* the empty line *)
+    rewrite app_nil_r_s. unfold data_tokens, comment_text, line_tokens, line_comment. cbn [map List.concat].
+    assert (E : mcnp_comment_line ii = false)
+      by (destruct Hii as [-> | ->]; [reflexivity | eapply cline_cont_prefix; [exact Hc | rewrite <- (app_nil_r_s (blanks cont)) at 2; apply prefix_app]]).
+    rewrite E, data_part_nodollar, after_dollar_nodollar by exact Hiid.
+    rewrite (words_blank_only ii Hiib). split; reflexivity.
+  - (* data without '$' *)
+    destruct (data_lines_tokens out Hdl) as [T1 T2].
+    unfold data_tokens, comment_text. rewrite T1, T2, Hw. cbn [map List.concat].
+    unfold line_tokens, line_comment. rewrite Hncl.
+    assert (Hd' : has_char dollar (ii ++ line) = false) by (rewrite has_char_app, Hiid, Hd; reflexivity).
+    rewrite data_part_nodollar, after_dollar_nodollar by exact Hd'.
+    rewrite (words_blank_app ii line Hiib), app_nil_r. split; reflexivity.
+  - (* a comment line *)
+    rewrite Hi. cbn [append].
+    assert (Tb : List.concat (map line_tokens (map (fun b => comment_si ++ b) bs)) = [] /\
+                 String.concat "" (map line_comment (map (fun b => comment_si ++ b) bs)) =
+                 String.concat "" (map (fun b => " " ++ b) bs)).
+    { clear. induction bs as [|b bs [I1 I2]]; [split; reflexivity|]. cbn [map List.concat].
+      rewrite !concat_cons, I1, I2. split; reflexivity. }
+    destruct Tb as [Tb1 Tb2].
+    unfold data_tokens, comment_text. cbn [map List.concat]. rewrite !concat_cons, Tb1, Tb2.
+    unfold line_tokens, line_comment. rewrite Hb0, Hcl. split; [reflexivity|]. cbn [String.concat].
+    rewrite <- Hcat. rewrite concat_cons.
+    rewrite (cline_after_c_app 4 b0 (String.concat "" bs) Hb0).
+    rewrite !noblank_app, (noblank_sep " " bs eq_refl). cbn [noblank]. rewrite ?app_nil_r_s. reflexivity.
+  - (* a '$' comment *)
+    destruct (dollar_shape_meaning _ _ _ _ Hc Hsh) as [T1 T2].
+    rewrite T1, T2. unfold data_tokens, comment_text. cbn [map List.concat String.concat].
+    unfold line_tokens, line_comment. rewrite Hncl.
+    destruct (split_dollar_spec line) as (_ & Hbd & _).
+    assert (Hp : has_char dollar (ii ++ before_dollar line) = false) by (rewrite has_char_app, Hiid, Hbd; reflexivity).
+    replace (ii ++ line) with ((ii ++ before_dollar line) ++ String dollar rest)
+      by (rewrite app_assoc_s; f_equal; symmetry; exact Hline).
+    rewrite data_part_dollar, after_dollar_dollar by exact Hp.
+    rewrite app_nil_r. split; reflexivity.
+Qed.
+
+(* ... and the three ways in which it does when a hypothesis is dropped (each replayed on the real code) *)
+(* (a) is_comment and MCNP disagree: a continuation line whose first word is "c" *)
+Lemma wrap_line_meaning_refuted_c_beyond_column_5 :
+  exists W line out,
+    11 < W /\ wrap_line W "" (blanks 5) (plain_line line) = WOk out /\
+    is_comment line = true /\ mcnp_comment_line line = false /\
+    Forall (fun c => slen c <= W - 5) (split_ws (before_dollar line)) /\
+    data_tokens out <> data_tokens [line].
+Proof.
+  exists 20, "          c 1 2 3 4 5 6 7 8", ["          c 1 2 3 4 "; "c 5 6 7 8"].
+  split; [lia|]. split; [vm_compute; reflexivity|]. split; [reflexivity|]. split; [reflexivity|].
+  split; [vm_compute; repeat (constructor; [lia|]); constructor | vm_compute; discriminate].
+Qed.
+
+(* (b) chunks that are not the blank-separated runs: textwrap's chunker splits "be-met.40t" after the hyphen *)
+Lemma wrap_line_meaning_refuted_hyphen :
+  exists W l out,
+    11 < W /\ String.concat "" (l_chunks l) = l_text l /\ is_comment (l_text l) = false /\
+    mcnp_comment_line (l_text l) = false /\
+    Forall (fun c => slen c <= W - 5) (l_chunks l) /\
+    wrap_line W "" (blanks 5) l = WOk out /\
+    data_tokens out <> data_tokens [l_text l].
+Proof.
+  exists 20, (SrcLine "mt1 lwtr.10t be-met.40t" ["mt1"; " "; "lwtr.10t"; " "; "be-"; "met.40t"] [] []),
+    ["mt1 lwtr.10t be-"; "     met.40t"].
+  split; [lia|]. split; [reflexivity|]. split; [reflexivity|]. split; [reflexivity|].
+  split; [vm_compute; repeat (constructor; [lia|]); constructor|].
+  split; [vm_compute; reflexivity | vm_compute; discriminate].
+Qed.
+
+(* (c) a tab: the raw line fits, the text with the tab expanded does not, and the '$' comment is wrapped as data *)
+Definition tab_line : string := "1" ++ String tab_char (String tab_char "2 $ aa bb cc").
+Lemma wrap_line_meaning_refuted_tab :
+  exists W l out,
+    11 < W /\ String.concat "" (l_chunks l) = munge (l_text l) /\ is_comment (l_text l) = false /\
+    wrap_line W "" (blanks 5) l = WOk out /\
+    data_tokens out <> data_tokens [munge (l_text l)].
+Proof.
+  exists 20, (SrcLine tab_line (split_ws (munge tab_line)) (split_ws (munge (before_dollar tab_line)))
+                      (split_ws (munge (from_dollar tab_line)))),
+    ["1               2 $ "; "     aa bb cc"].
+  split; [lia|]. split; [vm_compute; reflexivity|]. split; [reflexivity|].
+  split; [vm_compute; reflexivity | vm_compute; discriminate].
+Qed.
+
+(* (d) the bound 11 < W is needed: with W = 9 a data word "c" is left alone on a line and becomes a comment line *)
+Lemma wrap_line_meaning_refuted_narrow :
+  exists W line out,
+    5 + 2 < W /\ is_comment line = mcnp_comment_line line /\
+    Forall (fun c => slen c <= W - 5) (split_ws (before_dollar line)) /\
+    wrap_line W "" (blanks 5) (plain_line line) = WOk out /\
+    data_tokens out <> data_tokens [line].
+Proof.
+  exists 9, "   c$ a b c d", ["   c"; "     $ a "; "     $ b "; "     $ c "; "     $ d"].
+  split; [lia|]. split; [reflexivity|].
+  split; [vm_compute; repeat (constructor; [lia|]); constructor|].
+  split; [vm_compute; reflexivity | vm_compute; discriminate].
+Qed.
+
+Lemma wrap_line_identity : forall W ii si line,
+  line <> "" -> slen ii + slen line <= W -> wrap_line W ii si (plain_line line) = WOk [ii ++ line].
+Proof.
+  intros W ii si line Hne Hfit. unfold wrap_line. cbn [l_text l_chunks plain_line].
+  apply Nat.leb_le in Hfit. rewrite Hfit. apply Nat.leb_le in Hfit.
+  destruct (split_ws_spec line) as (b & _ & Hcat).
+  rewrite wrap_identity.
+  - rewrite Hcat. reflexivity.
+  - apply split_ws_nonnil. exact Hne.
+  - apply split_ws_chunks_nonempty.
+  - rewrite Hcat. exact Hfit.
+Qed.
+
+Lemma wrap_line_meaning_example :
+  let line := "1 2 3 $ a long comment that is wrapped" in
+  5 <= 5 /\ 5 + 2 < 20 /\ 11 < 20 /\ is_comment line = mcnp_comment_line ("" ++ line) /\
+  Forall (fun c => slen c <= 20 - 5) (split_ws (before_dollar line)) /\
+  wrap_line 20 "" (blanks 5) (plain_line line) =
+    WOk ["1 2 3 $ a long "; "     $ comment that "; "     $ is wrapped"].
+Proof.
+  cbn zeta. split; [lia|]. split; [lia|]. split; [lia|]. split; [reflexivity|].
+  split; [vm_compute; repeat (constructor; [lia|]); constructor | vm_compute; reflexivity].
+Qed.
+
+Lemma wrap_line_comment_example :
+  let line := "c a comment line that is longer than twenty columns" in
+  is_comment line = mcnp_comment_line ("" ++ line) /\ is_comment line = true /\
+  wrap_line 20 "" (blanks 5) (plain_line line) =
+    WOk ["c a comment line "; "c that is longer "; "c than twenty "; "c columns"].
+Proof. cbn zeta. split; [reflexivity|]. split; [reflexivity | vm_compute; reflexivity]. Qed.
+
+(* ------------------------------------------------------------------ *)
 (* 9. non-vacuity *)
 Lemma wrap_width_example :
   wrap_chunks 20 "" (blanks 5) (split_ws "1 0 -1 2 -3 4 -5 6 imp:n=1 vol=12345")
